@@ -214,9 +214,11 @@ Proof.
     destruct (find e (wmem w)) as [te|]; [|reflexivity].
     destruct (find q (wmem w)); [|reflexivity].
     destruct (parent_of e (wmem w)) as [p|]; [|reflexivity].
-    destruct (negb (can_hold (fst q) (fst e)) || mem_key q (keys_of te) || key_eqb p q); [reflexivity|]. simpl.
+    destruct (negb (can_hold (fst q) (fst e)) || mem_key q (keys_of te)); [reflexivity|].
+    destruct (key_eqb p q); [reflexivity|]. simpl.
     rewrite save_tree_frame.
-    + apply w_unlink_frame. intros ->. apply Hx. left. reflexivity.
+    + assert (Hp : x <> p) by (intros ->; apply Hx; left; reflexivity).
+      rewrite w_unlink_frame by exact Hp. destruct (fst e); try reflexivity. apply w_scrub_frame. exact Hp.
     + intros ->. apply Hx. right. left. reflexivity.
     + intros Hk. apply Hx. right. right. exact Hk.
   - (* RemoveWs *) destruct (key_eqb e rootkey); [reflexivity|].
@@ -268,8 +270,9 @@ Proof.
     destruct (find e (wmem w)) as [te|]; [|reflexivity].
     destruct (find q (wmem w)); [|reflexivity].
     destruct (parent_of e (wmem w)) as [p|]; [|reflexivity].
-    destruct (negb (can_hold (fst q) (fst e)) || mem_key q (keys_of te) || key_eqb p q); [reflexivity|]. simpl.
-    rewrite save_tree_rootlink. apply w_unlink_rootlink.
+    destruct (negb (can_hold (fst q) (fst e)) || mem_key q (keys_of te)); [reflexivity|].
+    destruct (key_eqb p q); [reflexivity|]. simpl.
+    rewrite save_tree_rootlink, w_unlink_rootlink. destruct (fst e); try reflexivity. apply w_scrub_rootlink.
   - destruct (key_eqb e rootkey); [reflexivity|]. unfold do_remove_ws.
     destruct (find e (wmem w)) as [te|]; [|reflexivity].
     destruct (parent_of e (wmem w)) as [p|]; [|reflexivity].
@@ -724,17 +727,19 @@ Proof.
 Qed.
 
 (* the save_entity that follows a move only adds the link under the new parent *)
-Lemma move_file C p a l1 te l2 f P q :
+Lemma move_file C p a l1 te l2 f P q pp :
   Rep (plug C (Node p a (l1 ++ te :: l2))) f P ->
-  save_tree q te (w_unlink p (tkey te) f) = w_link q (tkey te) (w_unlink p (tkey te) f).
+  save_tree q te (w_unlink p (tkey te) (kd_wscrub p (tkey te) pp f))
+  = w_link q (tkey te) (w_unlink p (tkey te) (kd_wscrub p (tkey te) pp f)).
 Proof.
   intros R. destruct (rep_hole_facts _ _ _ _ R) as [Hnd [Hdis [Hrows [Hpend Hpgs]]]].
   pose proof (nodup_hole _ _ _ _ _ Hnd) as [Hte [Hpte Hd]].
   apply save_tree_stored. intros r Hr.
   destruct (node_matches_stored (flat f) te) with (r := r) as [n [Hg Hk]]; [|exact Hr|].
   - intros r' Hr'. apply Hrows. apply in_rows_hole. right. right. left. exact Hr'.
-  - exists n. split; [|exact Hk]. rewrite w_unlink_frame; [exact Hg|].
-    intros E. apply Hpte. rewrite <- E. apply rows_keys. exact Hr.
+  - exists n. split; [|exact Hk].
+    assert (Hne : rkey r <> p) by (intros E; apply Hpte; rewrite <- E; apply rows_keys; exact Hr).
+    rewrite w_unlink_frame by exact Hne. rewrite kd_wscrub_frame by exact Hne. exact Hg.
 Qed.
 
 (* closing a file that represents the tree only sweeps the dead groups *)
@@ -761,11 +766,16 @@ Proof.
     destruct (find e (wmem w)) as [te|] eqn:Fe; [|reflexivity].
     destruct (find q (wmem w)); [|reflexivity].
     destruct (parent_of e (wmem w)) as [p|] eqn:Pe; [|reflexivity].
-    destruct (negb (can_hold (fst q) (fst e)) || mem_key q (keys_of te) || key_eqb p q); [reflexivity|]. simpl.
+    destruct (negb (can_hold (fst q) (fst e)) || mem_key q (keys_of te)); [reflexivity|].
+    destruct (key_eqb p q); [reflexivity|]. simpl.
     destruct (child_ctx _ _ _ _ (rep_nodup _ _ _ R) Fe Pe) as [C [a [l1 [l2 [Ht Hk]]]]].
-    rewrite Ht in R. subst e. rewrite (move_file _ _ _ _ _ _ _ _ q R).
+    rewrite Ht in R. subst e.
+    match goal with |- context [w_scrub p (tkey te) ?pp (wfile w)] =>
+      pose proof (move_file _ _ _ _ _ _ _ _ q pp R) as Hm end.
+    unfold kd_wscrub in Hm. rewrite Hm.
     rewrite w_link_frame by (intros ->; apply Hx; right; left; reflexivity).
-    apply w_unlink_frame. intros ->. apply Hx. left. reflexivity.
+    assert (Hp : x <> p) by (intros ->; apply Hx; left; reflexivity).
+    rewrite w_unlink_frame by exact Hp. destruct (fst (tkey te)); try reflexivity. apply w_scrub_frame. exact Hp.
   - (* Reopen *) unfold step. rewrite reopen_file.
     destruct (close_file_rep_file w P R Hin) as [-> _]. unfold sweep_file. apply del_all_frame. exact Hx.
 Qed.
@@ -774,3 +784,1044 @@ Theorem step_frame_rep : forall w o x, Rep (wmem w) (wfile w) (wpend w) -> ~ In 
   fget x (flat (wfile (fst (step w o)))) = fget x (flat (wfile w)).
 Proof. intros w o x R. apply step_frame_rep_gen with (P := wpend w); [exact R | intros k Hk; exact Hk]. Qed.
 
+
+(* ---- property-group blocks of the entity at a hole ---- *)
+Lemma rep_hole_node C x a l f P : Rep (plug C (Node x a l)) f P ->
+  exists n, fget x (flat f) = Some n /\ attrs_equiv (fattrs n) a.
+Proof.
+  intros R. destruct (rep_hole_facts _ _ _ _ R) as [_ [_ [Hrows _]]].
+  destruct (Hrows (x, a, map tkey l)) as [n [Hg [Ha _]]]; [rewrite rows_eq; left; reflexivity|].
+  exists n. split; assumption.
+Qed.
+
+Lemma rep_hole_pgs C x a l f P : Rep (plug C (Node x a l)) f P -> pgs_ok (x, a, map tkey l).
+Proof.
+  intros R. destruct (rep_hole_facts _ _ _ _ R) as [_ [_ [_ [_ Hpgs]]]]. apply Hpgs. rewrite rows_eq. left. reflexivity.
+Qed.
+
+Lemma rep_set_pgs C x a l f f' P n M' F' :
+  Rep (plug C (Node x a l)) f P -> fget x (flat f) = Some n ->
+  fget x (flat f') = Some (set_pgs n F') -> pgs_equiv F' M' ->
+  (forall y, y <> x -> fget y (flat f') = fget y (flat f)) -> NoDup (map fst (flat f')) -> rootlink f' = rootlink f ->
+  pgs_ok (x, with_pgs a M', map tkey l) ->
+  Rep (plug C (Node x (with_pgs a M') l)) f' P.
+Proof.
+  intros R Hn Hn' He Hfr Hnd Hrl Hpg.
+  destruct (rep_hole_node _ _ _ _ _ _ R) as [n0 [Hg0 Ha0]]. rewrite Hn in Hg0. inversion Hg0; subst n0.
+  eapply rep_attrs; try eassumption; try reflexivity.
+  simpl. apply attrs_equiv_with; assumption.
+Qed.
+
+Lemma pgs_ok_scrub x a kids c : pgs_ok (x, a, kids) ->
+  pgs_ok (x, with_pgs a (scrub c (apgs a)), kids) /\ forall g, In g (scrub c (apgs a)) -> ~ In c (pg_members g).
+Proof.
+  intros [G1 [G2 G3]]. unfold rattrs, rkids in *. simpl in *. split; [split; [|split]|].
+  - apply scrub_ids_nodup. exact G1.
+  - intros g Hg. apply scrub_In in Hg. destruct Hg as [g0 [Hg0 Hs]]. apply (scrub1_members c g0 g (G2 g0 Hg0) Hs).
+  - intros g m Hg Hm. apply scrub_In in Hg. destruct Hg as [g0 [Hg0 Hs]].
+    destruct (scrub1_members c g0 g (G2 g0 Hg0) Hs) as [_ Hmem]. apply Hmem in Hm. apply (G3 g0 m Hg0). apply Hm.
+  - intros g Hg Hc. apply scrub_In in Hg. destruct Hg as [g0 [Hg0 Hs]].
+    destruct (scrub1_members c g0 g (G2 g0 Hg0) Hs) as [_ Hmem]. apply Hmem in Hc. destruct Hc as [_ Hc]. congruence.
+Qed.
+
+(* a completed removal of the child te of p: scrub (data only), unlink *)
+Lemma rep_forget C p a l1 te l2 f P :
+  Rep (plug C (Node p a (l1 ++ te :: l2))) f P ->
+  Rep (plug C (Node p (kd_attrs (tkey te) a) (l1 ++ l2)))
+      (w_unlink p (tkey te) (kd_wscrub p (tkey te) (apgs a) f)) (P ++ keys_of te).
+Proof.
+  intros R. pose proof (rep_hole_pgs _ _ _ _ _ _ R) as Hpg0.
+  destruct (rep_hole_node _ _ _ _ _ _ R) as [n [Hg Ha]].
+  unfold kd_attrs, kd_wscrub. destruct (fst (tkey te)) eqn:Ek.
+  - apply rep_detach; [exact R|]. intros g Hgin Hm. destruct Hpg0 as [_ [_ G3]].
+    destruct (G3 g _ Hgin Hm) as [_ Hkd]. congruence.
+  - apply rep_detach; [exact R|]. intros g Hgin Hm. destruct Hpg0 as [_ [_ G3]].
+    destruct (G3 g _ Hgin Hm) as [_ Hkd]. congruence.
+  - destruct (pgs_ok_scrub _ _ _ (tkey te) Hpg0) as [Hok Hno].
+    apply rep_detach; [|exact Hno].
+    eapply rep_set_pgs with (n := n).
+    + exact R.
+    + exact Hg.
+    + apply w_scrub_same. exact Hg.
+    + apply scrub_equiv; [apply Hpg0 | apply attrs_equiv_pgs; exact Ha].
+    + intros y Hy. apply w_scrub_frame. exact Hy.
+    + apply w_scrub_nodup. exact (rep_flatnd _ _ _ R).
+    + apply w_scrub_rootlink.
+    + exact Hok.
+Qed.
+
+(* ======================================================================================================== *)
+(* Part B — the invariant is preserved by every operation                                                    *)
+(* ======================================================================================================== *)
+
+Lemma rep_init : Rep (wmem init) (wfile init) (wpend init).
+Proof.
+  constructor.
+  - reflexivity.
+  - simpl. constructor; [intros [] | constructor].
+  - simpl. constructor; [intros [] | constructor].
+  - intros r [<-|[]]. eexists. split; [reflexivity|]. simpl.
+    split; [apply attrs_equiv_refl|]. split; [constructor|]. split; [intros c; split; intros []|]. intros c ad [].
+  - intros k n Hg. simpl in Hg. destruct (key_eqb k rootkey) eqn:E; [|discriminate].
+    apply key_eqb_eq in E. left. left. congruence.
+  - intros k [].
+  - eexists. split; reflexivity.
+  - intros r [<-|[]]. split; [constructor|]. split; [intros g [] | intros g m []].
+Qed.
+
+Lemma pgs_ok_nil x a kids : apgs a = [] -> pgs_ok (x, a, kids).
+Proof.
+  intros E. unfold pgs_ok, rattrs. simpl. rewrite E. split; [constructor|]. split; [intros g [] | intros g m []].
+Qed.
+
+Lemma rep_create t f P x a p sp : Rep t f P -> fget x (flat f) = None -> find p t = Some sp -> ~ In x (keys_of t) ->
+  apgs a = [] ->
+  Rep (upd p (add_kid (Node x a [])) t) (w_link p x (w_entity x a f)) (rm_key x P).
+Proof.
+  intros R Hx Hf Hnx Hpg.
+  pose proof (find_tkey _ _ _ Hf) as Hk. apply find_ctx in Hf. destruct Hf as [C ->].
+  destruct sp as [p' ap lp]. simpl in Hk. subst p'.
+  rewrite upd_hole by exact (rep_nodup _ _ _ R). simpl.
+  pose proof (rep_add_orphan _ _ _ x a R Hx Hnx) as R1.
+  change x with (tkey (Node x a [])) at 2.
+  apply rep_attach with (P0 := x :: P); try exact R1.
+  - simpl. constructor; [intros [] | constructor].
+  - intros r [<-|[]]. eexists. unfold rkey, rattrs, rkids. simpl. split; [apply w_entity_new; exact Hx|]. simpl.
+    split; [apply attrs_equiv_refl|]. split; [constructor|]. split; [intros c; split; intros []|]. intros c ad [].
+  - intros r [<-|[]]. apply pgs_ok_nil. exact Hpg.
+  - intros k [<-|[]]. left. reflexivity.
+  - intros k [<-|Hk]; [right; left; reflexivity|].
+    destruct (key_dec k x) as [->|Hne]; [right; left; reflexivity | left; apply rm_key_In; split; assumption].
+  - intros k Hk. apply rm_key_In in Hk. destruct Hk as [Hk Hne]. split; [right; exact Hk|].
+    intros [E|[]]. congruence.
+Qed.
+
+Lemma rep_do_set w e g wr P :
+  (forall a, apgs (g a) = apgs a) ->
+  (forall x a f n, fget x (flat f) = Some n -> attrs_equiv (fattrs n) a ->
+     exists n', fget x (flat (wr x (g a) f)) = Some n' /\ attrs_equiv (fattrs n') (g a) /\ faddr n' = faddr n /\ flinks n' = flinks n) ->
+  (forall x a f y, y <> x -> fget y (flat (wr x a f)) = fget y (flat f)) ->
+  (forall x a f, NoDup (map fst (flat f)) -> NoDup (map fst (flat (wr x a f)))) ->
+  (forall x a f, rootlink (wr x a f) = rootlink f) ->
+  Rep (wmem w) (wfile w) P ->
+  Rep (wmem (fst (do_set w e g wr))) (wfile (fst (do_set w e g wr))) P /\ wpend (fst (do_set w e g wr)) = wpend w.
+Proof.
+  intros H0 H1 H2 H3 H4 R. unfold do_set.
+  destruct (find e (wmem w)) as [te|] eqn:F; [|split; [exact R | reflexivity]].
+  destruct (key_eqb e rootkey); [split; [exact R | reflexivity]|]. simpl. split; [|reflexivity].
+  pose proof (find_tkey _ _ _ F) as Hk. apply find_ctx in F. destruct F as [C HC].
+  destruct te as [e' a l]. simpl in Hk. subst e'. rewrite HC in *.
+  rewrite upd_hole by exact (rep_nodup _ _ _ R). simpl.
+  destruct (rep_hole_node _ _ _ _ _ _ R) as [n [Hg Ha]].
+  pose proof (rep_hole_pgs _ _ _ _ _ _ R) as Hpg.
+  destruct (H1 e a (wfile w) n Hg Ha) as [n' [Hg' [Ha' [Had Hli]]]].
+  eapply rep_attrs; try eassumption.
+  - intros y Hy. apply H2. exact Hy.
+  - apply H3. exact (rep_flatnd _ _ _ R).
+  - apply H4.
+  - unfold pgs_ok, rattrs, rkids in *. simpl in *. rewrite H0. exact Hpg.
+Qed.
+
+Lemma find_plug_hole C p a L : NoDup (keys_of (plug C (Node p a L))) -> find p (plug C (Node p a L)) = Some (Node p a L).
+Proof. intros H. rewrite find_plug; [apply (find_self (Node p a L)) | exact H | left; reflexivity]. Qed.
+
+Lemma rep_remove_parent t f P e te p : Rep t f P -> find e t = Some te -> parent_of e t = Some p ->
+  Rep (forget e t)
+      (w_unlink p e (kd_wscrub p e (match find p t with Some tp => apgs (tattrs tp) | None => [] end) f))
+      (P ++ keys_of te).
+Proof.
+  intros R Fe Pe. destruct (child_ctx _ _ _ _ (rep_nodup _ _ _ R) Fe Pe) as [C [a [l1 [l2 [-> Hk]]]]].
+  subst e. rewrite forget_hole by exact (rep_nodup _ _ _ R).
+  rewrite find_plug_hole by exact (rep_nodup _ _ _ R). simpl. apply rep_forget. exact R.
+Qed.
+
+Lemma rep_move t f P e te q sq p : Rep t f P -> find e t = Some te -> find q t = Some sq -> parent_of e t = Some p ->
+  ~ In q (keys_of te) ->
+  Rep (upd q (add_kid te) (forget e t))
+      (save_tree q te (w_unlink p e (kd_wscrub p e (match find p t with Some tp => apgs (tattrs tp) | None => [] end) f))) P.
+Proof.
+  intros R Fe Fq Pe Hq.
+  destruct (child_ctx _ _ _ _ (rep_nodup _ _ _ R) Fe Pe) as [C [a [l1 [l2 [-> Hk]]]]]. subst e.
+  rewrite (move_file _ _ _ _ _ _ _ _ q _ R).
+  rewrite find_plug_hole by exact (rep_nodup _ _ _ R). simpl tattrs.
+  destruct (rep_hole_facts _ _ _ _ R) as [Hnd [Hdis [Hrows [Hpend Hpgs]]]].
+  pose proof (nodup_hole _ _ _ _ _ Hnd) as [Hte [Hpte Hd]].
+  pose proof (rep_forget _ _ _ _ _ _ _ _ R) as R1.
+  rewrite forget_hole by exact (rep_nodup _ _ _ R).
+  assert (Hq1 : In q (keys_of (plug C (Node p (kd_attrs (tkey te) a) (l1 ++ l2))))).
+  { apply find_Some_in in Fq. apply keys_plug_in in Fq. apply keys_plug_in.
+    destruct Fq as [Fq|Fq]; [left | right; exact Fq].
+    apply in_keys_hole in Fq. apply in_keys_nohole. tauto. }
+  destruct (find_in _ _ Hq1) as [sq1 Fq1].
+  pose proof (find_tkey _ _ _ Fq1) as Hk1. apply find_ctx in Fq1. destruct Fq1 as [C2 HC2].
+  destruct sq1 as [q' aq lq]. simpl in Hk1. subst q'. rewrite HC2 in *.
+  rewrite upd_hole by exact (rep_nodup _ _ _ R1). simpl.
+  apply rep_attach with (P0 := P ++ keys_of te).
+  - exact R1.
+  - exact Hte.
+  - intros r Hr. apply node_matches_same with (m := flat f).
+    + apply Hrows. apply in_rows_hole. right. right. left. exact Hr.
+    + assert (Hne : rkey r <> p) by (intros E; apply Hpte; rewrite <- E; apply rows_keys; exact Hr).
+      rewrite w_unlink_frame by exact Hne. apply kd_wscrub_frame. exact Hne.
+    + intros c Hc. assert (Hne : c <> p) by (intros ->; apply Hpte; eapply rows_kids_keys; eassumption).
+      rewrite w_unlink_frame by exact Hne. apply kd_wscrub_frame. exact Hne.
+  - intros r Hr. apply Hpgs. apply in_rows_hole. right. right. left. exact Hr.
+  - intros k Hk. apply in_or_app. right. exact Hk.
+  - intros k Hk. apply in_app_or in Hk. exact Hk.
+  - intros k Hk. split; [apply in_or_app; left; exact Hk|].
+    intros Hk2. apply (proj1 (Hpend k Hk)). apply in_keys_hole. right. right. left. exact Hk2.
+Qed.
+
+(* ---- removal through the workspace, including the partial (raised) outcome ---- *)
+Definition forget_all (gone : list key) (t : tree) : tree := fold_left (fun m k => forget k m) gone t.
+
+Definition rm_ok (te : tree) : Prop := forall C p a l1 l2 f P,
+  Rep (plug C (Node p a (l1 ++ te :: l2))) f P ->
+  exists f' gone ok, rm_ws p (apgs a) te f = (f', ok) /\ rm_ws_done te = (gone, ok) /\
+     Rep (forget_all gone (plug C (Node p a (l1 ++ te :: l2)))) f' P /\
+     (ok = true -> gone = [tkey te]).
+
+Lemma rm_list_ok k C' P r : Forall rm_ok r -> forall f ak, Rep (plug C' (Node k ak r)) f P ->
+  exists f' pgs' gone ok, rm_list k r (f, apgs ak) = (f', pgs', ok) /\ done_list r = (gone, ok) /\
+     Rep (forget_all gone (plug C' (Node k ak r))) f' P /\
+     (ok = true -> exists ak', forget_all gone (plug C' (Node k ak r)) = plug C' (Node k ak' [])).
+Proof.
+  intros H. induction H as [|c r' Hc Hr IH]; intros f ak R.
+  - exists f, (apgs ak), [], true. split; [reflexivity|]. split; [reflexivity|]. split; [exact R|].
+    intros _. exists ak. reflexivity.
+  - destruct (Hc C' k ak [] r' f P R) as [f1 [g1 [ok1 [E1 [E2 [R1 G1]]]]]].
+    pose proof (forget_hole C' k ak [] c r' (rep_nodup _ _ _ R)) as Hp. simpl in Hp.
+    simpl. rewrite E1, E2. destruct ok1.
+    + rewrite (G1 eq_refl) in R1. unfold forget_all in R1. simpl in R1. rewrite Hp in R1.
+      rewrite kd_scrub_attrs.
+      destruct (IH f1 _ R1) as [f2 [pgs2 [g2 [ok2 [E3 [E4 [R2 G2]]]]]]].
+      exists f2, pgs2, (g1 ++ g2), ok2. rewrite E3, E4. rewrite (G1 eq_refl). unfold forget_all. simpl. rewrite Hp.
+      split; [reflexivity|]. split; [reflexivity|]. split; [exact R2 | exact G2].
+    + exists f1, (apgs ak), g1, false. split; [reflexivity|]. split; [reflexivity|]. split; [exact R1 | discriminate].
+Qed.
+
+Lemma rm_ws_ok t : rm_ok t.
+Proof.
+  induction t as [k ak l IH] using tree_ind'. intros C p a l1 l2 f P R.
+  rewrite rm_ws_eq, rm_ws_done_eq. destruct (negb (adel ak)).
+  - exists f, [], false. split; [reflexivity|]. split; [reflexivity|]. split; [exact R | discriminate].
+  - destruct (rm_list_ok k ((p, a, l1, l2) :: C) P l IH f ak R) as [f1 [pgs1 [g [ok [E1 [E2 [R1 G]]]]]]].
+    rewrite E1, E2. destruct ok; simpl.
+    + exists (w_delete k (w_unlink p k (kd_wscrub p k (apgs a) f1))), [k], true.
+      split; [reflexivity|]. split; [reflexivity|]. split; [|reflexivity].
+      destruct (G eq_refl) as [ak' Hak]. rewrite Hak in R1. simpl in R1.
+      pose proof (forget_hole C p a l1 (Node k ak l) l2 (rep_nodup _ _ _ R)) as Hp. simpl in Hp.
+      unfold forget_all. simpl. rewrite Hp.
+      pose proof (rep_forget _ _ _ _ _ _ _ _ R1) as R2. simpl in R2.
+      apply (rep_delete _ _ _ [k] P) in R2.
+      * exact R2.
+      * intros d [<-|[]]. apply in_or_app. right. left. reflexivity.
+      * intros k' Hk'. apply in_app_or in Hk'. destruct Hk' as [Hk'|Hk']; [right; exact Hk' | left; exact Hk'].
+      * intros k' Hk'. apply in_or_app. left. exact Hk'.
+    + exists f1, g, false. split; [reflexivity|]. split; [reflexivity|]. split; [exact R1 | discriminate].
+Qed.
+
+Lemma rep_remove_ws t f P e te p : Rep t f P -> find e t = Some te -> parent_of e t = Some p ->
+  let ppgs := match find p t with Some tp => apgs (tattrs tp) | None => [] end in
+  Rep (forget_all (fst (rm_ws_done te)) t) (fst (rm_ws p ppgs te f)) P /\ snd (rm_ws p ppgs te f) = snd (rm_ws_done te).
+Proof.
+  intros R Fe Pe. destruct (child_ctx _ _ _ _ (rep_nodup _ _ _ R) Fe Pe) as [C [a [l1 [l2 [-> Hk]]]]].
+  rewrite find_plug_hole by exact (rep_nodup _ _ _ R). simpl.
+  destruct (rm_ws_ok te C p a l1 l2 f P R) as [f' [g [ok [E1 [E2 [R1 _]]]]]].
+  rewrite E1, E2. simpl. split; [exact R1 | reflexivity].
+Qed.
+
+(* ---- sweep ---- *)
+Lemma rep_sweep w k orph : Rep (wmem w) (wfile w) (wpend w ++ orph) ->
+  Rep (wmem w) (sweep_file w k) (filter (fun x => negb (kind_eqb (fst x) k)) (wpend w) ++ orph).
+Proof.
+  intros R. unfold sweep_file. eapply rep_delete; [exact R | | |].
+  - intros d Hd. apply filter_In in Hd. apply in_or_app. left. apply Hd.
+  - intros x Hx. apply in_app_or in Hx. destruct Hx as [Hx|Hx].
+    + destruct (kind_eqb (fst x) k) eqn:E.
+      * left. apply filter_In. split; assumption.
+      * right. apply in_or_app. left. apply filter_In. split; [exact Hx | rewrite E; reflexivity].
+    + right. apply in_or_app. right. exact Hx.
+  - intros x Hx. apply in_app_or in Hx. apply in_or_app. destruct Hx as [Hx|Hx]; [left | right; exact Hx].
+    apply filter_In in Hx. apply Hx.
+Qed.
+
+(* ---- property-group operations ---- *)
+Lemma pg_put_equiv g M F : NoDup (map pg_id M) -> pgs_equiv F M -> pgs_equiv (pg_put g F) (pg_put g M).
+Proof.
+  intros HM He. pose proof (pgs_equiv_ids _ _ HM (pgs_equiv_sym _ _ He)) as HF.
+  apply pgs_equiv_of_nodup; [apply pg_put_ids_nodup; exact HF | apply pg_put_ids_nodup; exact HM|].
+  intros h. rewrite (pg_put_In g F h HF), (pg_put_In g M h HM). destruct He as [He _]. rewrite (He h). tauto.
+Qed.
+
+Lemma pg_del_equiv i M F : NoDup (map pg_id M) -> pgs_equiv F M -> pgs_equiv (pg_del i F) (pg_del i M).
+Proof.
+  intros HM He. pose proof (pgs_equiv_ids _ _ HM (pgs_equiv_sym _ _ He)) as HF.
+  apply pgs_equiv_of_nodup; [apply pg_del_ids_nodup; exact HF | apply pg_del_ids_nodup; exact HM|].
+  intros h. rewrite !pg_del_In. destruct He as [He _]. rewrite (He h). tauto.
+Qed.
+
+Lemma pg_by_name_In name L h : pg_by_name name L = Some h -> In h L.
+Proof.
+  induction L as [|x r IH]; simpl; [discriminate|].
+  destruct (N.eqb (pg_name x) name); [intros E; inversion E; left; reflexivity | intros E; right; apply IH; exact E].
+Qed.
+
+(* writing one group block g at the entity x of the tree *)
+Lemma rep_pg_put C x a l f P g :
+  Rep (plug C (Node x a l)) f P ->
+  NoDup (pg_members g) -> (forall m, In m (pg_members g) -> In m (map tkey l) /\ fst m = KD) ->
+  Rep (plug C (Node x (with_pgs a (pg_put g (apgs a))) l)) (w_pg_put x g f) P.
+Proof.
+  intros R Hgn Hgm. destruct (rep_hole_node _ _ _ _ _ _ R) as [n [Hg Ha]].
+  pose proof (rep_hole_pgs _ _ _ _ _ _ R) as [G1 [G2 G3]]. unfold rattrs, rkids in G1, G2, G3. simpl in G1, G2, G3.
+  eapply rep_set_pgs with (n := n).
+  - exact R.
+  - exact Hg.
+  - apply w_pg_put_same. exact Hg.
+  - apply pg_put_equiv; [exact G1 | apply attrs_equiv_pgs; exact Ha].
+  - intros y Hy. apply w_pg_put_frame. exact Hy.
+  - apply w_pg_put_nodup. exact (rep_flatnd _ _ _ R).
+  - apply w_pg_put_rootlink.
+  - unfold pgs_ok, rattrs, rkids. simpl. split; [apply pg_put_ids_nodup; exact G1|]. split.
+    + intros h Hh. apply (pg_put_In g _ h G1) in Hh. destruct Hh as [->|[Hh _]]; [exact Hgn | apply G2; exact Hh].
+    + intros h m Hh Hm. apply (pg_put_In g _ h G1) in Hh. destruct Hh as [->|[Hh _]]; [apply Hgm; exact Hm | eapply G3; eassumption].
+Qed.
+
+Lemma rep_pg_add w o g name ms P : Rep (wmem w) (wfile w) P ->
+  Rep (wmem (fst (do_pg_add w o g name ms))) (wfile (fst (do_pg_add w o g name ms))) P
+  /\ wpend (fst (do_pg_add w o g name ms)) = wpend w.
+Proof.
+  intros R. unfold do_pg_add.
+  destruct (find o (wmem w)) as [t|] eqn:F; [|split; [exact R | reflexivity]].
+  destruct (negb (kind_eqb (fst o) KO)); [split; [exact R | reflexivity]|].
+  destruct (filter (fun m => kind_eqb (fst m) KD && mem_key m (kid_keys t)) ms) as [|v0 vr] eqn:Ev; [split; [exact R | reflexivity]|].
+  rewrite <- Ev. simpl. split; [|reflexivity].
+  pose proof (find_tkey _ _ _ F) as Hk. apply find_ctx in F. destruct F as [C HC].
+  destruct t as [o' a l]. simpl in Hk. subst o'. rewrite HC in *.
+  rewrite upd_hole by exact (rep_nodup _ _ _ R). simpl.
+  pose proof (rep_hole_pgs _ _ _ _ _ _ R) as [G1 [G2 G3]]. unfold rattrs, rkids in G1, G2, G3. simpl in G1, G2, G3.
+  set (valid := filter (fun m => kind_eqb (fst m) KD && mem_key m (kid_keys (Node o a l))) ms) in *.
+  set (g0 := match pg_by_name name (apgs a) with Some h => h | None => (g, name, []) end).
+  assert (Hg0n : NoDup (pg_members g0)).
+  { unfold g0. destruct (pg_by_name name (apgs a)) as [h|] eqn:E; [apply G2; eapply pg_by_name_In; exact E | constructor]. }
+  assert (Hg0m : forall m, In m (pg_members g0) -> In m (map tkey l) /\ fst m = KD).
+  { unfold g0. destruct (pg_by_name name (apgs a)) as [h|] eqn:E; [|intros m []].
+    intros m Hm. eapply G3; [eapply pg_by_name_In; exact E | exact Hm]. }
+  apply rep_pg_put; [exact R | |].
+  - unfold pg_members at 1. simpl. apply add_new_nodup. exact Hg0n.
+  - unfold pg_members at 1. simpl. intros m Hm. apply add_new_In in Hm. destruct Hm as [Hm|Hm]; [apply Hg0m; exact Hm|].
+    unfold valid in Hm. apply filter_In in Hm. destruct Hm as [_ Hm]. apply andb_true_iff in Hm. destruct Hm as [H1 H2].
+    apply kind_eqb_eq in H1. apply mem_key_In in H2. split; [exact H2 | exact H1].
+Qed.
+
+Lemma rep_pg_remove w o g P : Rep (wmem w) (wfile w) P ->
+  Rep (wmem (fst (do_pg_remove w o g))) (wfile (fst (do_pg_remove w o g))) P
+  /\ wpend (fst (do_pg_remove w o g)) = wpend w.
+Proof.
+  intros R. unfold do_pg_remove.
+  destruct (find o (wmem w)) as [t|] eqn:F; [|split; [exact R | reflexivity]].
+  destruct (existsb (fun h => N.eqb (pg_id h) g) (apgs (tattrs t))); [|split; [exact R | reflexivity]].
+  simpl. split; [|reflexivity].
+  pose proof (find_tkey _ _ _ F) as Hk. apply find_ctx in F. destruct F as [C HC].
+  destruct t as [o' a l]. simpl in Hk. subst o'. rewrite HC in *.
+  rewrite upd_hole by exact (rep_nodup _ _ _ R). simpl.
+  destruct (rep_hole_node _ _ _ _ _ _ R) as [n [Hg Ha]].
+  pose proof (rep_hole_pgs _ _ _ _ _ _ R) as [G1 [G2 G3]]. unfold rattrs, rkids in G1, G2, G3. simpl in G1, G2, G3.
+  eapply rep_set_pgs with (n := n).
+  - exact R.
+  - exact Hg.
+  - apply w_pg_del_same. exact Hg.
+  - apply pg_del_equiv; [exact G1 | apply attrs_equiv_pgs; exact Ha].
+  - intros y Hy. apply w_pg_del_frame. exact Hy.
+  - apply w_pg_del_nodup. exact (rep_flatnd _ _ _ R).
+  - apply w_pg_del_rootlink.
+  - unfold pgs_ok, rattrs, rkids. simpl. split; [apply pg_del_ids_nodup; exact G1|]. split.
+    + intros h Hh. apply pg_del_In in Hh. apply G2. apply Hh.
+    + intros h m Hh Hm. apply pg_del_In in Hh. eapply G3; [apply Hh | exact Hm].
+Qed.
+
+(* ---- copy: a sequence of creations (node + link), children after their parent, then the group blocks ---- *)
+Definition drop (K P : list key) : list key := filter (fun k => negb (mem_key k K)) P.
+
+Lemma drop_In K P k : In k (drop K P) <-> In k P /\ ~ In k K.
+Proof. unfold drop. rewrite filter_In, negb_true_iff, mem_key_false. tauto. Qed.
+
+Lemma drop_app K P Q : drop K (P ++ Q) = drop K P ++ drop K Q.
+Proof. apply filter_app. Qed.
+
+Lemma with_pgs_nil_back a : with_pgs (with_pgs a []) (apgs a) = a.
+Proof. destruct a; reflexivity. Qed.
+
+Lemma rep_put_all C k a0 l : forall G M f P,
+  Rep (plug C (Node k (with_pgs a0 M) l)) f P ->
+  NoDup (map pg_id (M ++ G)) ->
+  (forall g, In g G -> NoDup (pg_members g) /\ forall m, In m (pg_members g) -> In m (map tkey l) /\ fst m = KD) ->
+  Rep (plug C (Node k (with_pgs a0 (M ++ G)) l)) (put_all k G f) P.
+Proof.
+  induction G as [|g G IH]; intros M f P R Hn HG.
+  - rewrite app_nil_r. exact R.
+  - change (put_all k (g :: G) f) with (put_all k G (w_pg_put k g f)).
+    replace (M ++ g :: G) with ((M ++ [g]) ++ G) by (rewrite <- app_assoc; reflexivity).
+    apply IH.
+    + destruct (HG g (or_introl eq_refl)) as [Hg1 Hg2].
+      pose proof (rep_pg_put _ _ _ _ _ _ g R Hg1 Hg2) as R1. simpl in R1.
+      rewrite pg_put_fresh in R1; [exact R1|].
+      rewrite map_app in Hn. apply nodup_app_iff in Hn. destruct Hn as [_ [_ Hd]].
+      intros Hin. apply (Hd _ Hin). left. reflexivity.
+    + rewrite <- app_assoc. exact Hn.
+    + intros g' Hg'. apply HG. right. exact Hg'.
+Qed.
+
+Definition copy_ok (t' : tree) : Prop := forall C q aq lq f P,
+  Rep (plug C (Node q aq lq)) f P ->
+  NoDup (keys_of t') ->
+  (forall x, In x (keys_of t') -> ~ In x (keys_of (plug C (Node q aq lq))) /\ fget x (flat f) = None) ->
+  (forall r, In r (rows t') -> pgs_ok r) ->
+  Rep (plug C (Node q aq (lq ++ [t']))) (save_copy q t' f) (drop (keys_of t') P).
+
+Lemma keys_plug_snoc C q aq lq t' x :
+  In x (keys_of (plug C (Node q aq (lq ++ [t'])))) <-> In x (keys_of (plug C (Node q aq lq))) \/ In x (keys_of t').
+Proof. rewrite !keys_plug_in, !keys_of_eq, flat_map_app. simpl. rewrite app_nil_r, in_app_iff. tauto. Qed.
+
+Lemma copy_kids_ok k a0 C' : forall l, Forall copy_ok l -> forall ls f P,
+  Rep (plug C' (Node k a0 ls)) f P ->
+  NoDup (flat_map keys_of l) ->
+  (forall x, In x (flat_map keys_of l) -> ~ In x (keys_of (plug C' (Node k a0 ls))) /\ fget x (flat f) = None) ->
+  (forall r, In r (flat_map rows l) -> pgs_ok r) ->
+  Rep (plug C' (Node k a0 (ls ++ l))) (copy_kids k l f) (drop (flat_map keys_of l) P).
+Proof.
+  intros l H. induction H as [|c r Hc Hr IH]; intros ls f P R Hnd Hfresh Hpg.
+  - rewrite app_nil_r. eapply rep_pend_equiv; [exact R|]. intros x. rewrite drop_In. simpl. tauto.
+  - simpl in Hnd. apply nodup_app_iff in Hnd. destruct Hnd as [N1 [N2 N3]].
+    change (copy_kids k (c :: r) f) with (copy_kids k r (save_copy k c f)).
+    replace (ls ++ c :: r) with ((ls ++ [c]) ++ r) by (rewrite <- app_assoc; reflexivity).
+    assert (Hcx : forall x, In x (keys_of c) -> In x (flat_map keys_of (c :: r))) by (intros x Hx; simpl; apply in_or_app; left; exact Hx).
+    assert (Hrx : forall x, In x (flat_map keys_of r) -> In x (flat_map keys_of (c :: r))) by (intros x Hx; simpl; apply in_or_app; right; exact Hx).
+    eapply rep_pend_equiv; [apply IH with (P := drop (keys_of c) P)|].
+    + apply Hc; [exact R | exact N1 | intros x Hx; apply Hfresh; apply Hcx; exact Hx |].
+      intros r0 Hr0. apply Hpg. simpl. apply in_or_app. left. exact Hr0.
+    + exact N2.
+    + intros x Hx. destruct (Hfresh x (Hrx x Hx)) as [F1 F2]. split.
+      * rewrite keys_plug_snoc. intros [H1|H1]; [exact (F1 H1) | exact (N3 x H1 Hx)].
+      * rewrite save_copy_frame; [exact F2 | | intros H1; exact (N3 x H1 Hx)].
+        intros ->. apply F1. apply keys_plug_in. left. left. reflexivity.
+    + intros r0 Hr0. apply Hpg. simpl. apply in_or_app. right. exact Hr0.
+    + intros x. rewrite !drop_In. simpl. rewrite in_app_iff. tauto.
+Qed.
+
+Lemma save_copy_ok t' : copy_ok t'.
+Proof.
+  induction t' as [k a l IH] using tree_ind'. intros C q aq lq f P R Hnd Hfresh Hpg.
+  rewrite save_copy_eq.
+  destruct (Hfresh k (or_introl eq_refl)) as [Hk1 Hk2].
+  pose proof (rep_create _ _ _ k (with_pgs a []) q _ R Hk2 (find_plug_hole _ _ _ _ (rep_nodup _ _ _ R)) Hk1 eq_refl) as R1.
+  rewrite upd_hole in R1 by exact (rep_nodup _ _ _ R). simpl add_kid in R1.
+  rewrite keys_of_eq in Hnd. inversion Hnd as [|? ? Hkl Hndl]; subst.
+  assert (Hq : In q (keys_of (plug C (Node q aq lq)))) by (apply keys_plug_in; left; left; reflexivity).
+  pose proof (copy_kids_ok k (with_pgs a []) ((q, aq, lq, []) :: C) l IH [] _ _ R1 Hndl) as R2.
+  simpl app in R2.
+  assert (Hpg0 : pgs_ok (k, a, map tkey l)) by (apply Hpg; rewrite rows_eq; left; reflexivity).
+  destruct Hpg0 as [G1 [G2 G3]]. unfold rattrs, rkids in G1, G2, G3. simpl in G1, G2, G3.
+  pose proof (rep_put_all ((q, aq, lq, []) :: C) k (with_pgs a []) l (apgs a) []) as R3. simpl app in R3.
+  rewrite with_pgs_nil_back in R3.
+  eapply rep_pend_equiv; [apply R3|].
+  - apply R2.
+    + intros x Hx. destruct (Hfresh x (or_intror Hx)) as [F1 F2]. split.
+      * change (plug ((q, aq, lq, []) :: C) (Node k (with_pgs a []) [])) with (plug C (Node q aq (lq ++ [Node k (with_pgs a []) []]))).
+        rewrite keys_plug_snoc. simpl. intros [H1|[H1|[]]]; [exact (F1 H1) | subst x; exact (Hkl Hx)].
+      * rewrite w_link_frame by (intros ->; exact (F1 Hq)).
+        rewrite w_entity_frame by (intros ->; exact (Hkl Hx)). exact F2.
+    + intros r0 Hr0. apply Hpg. rewrite rows_eq. right. exact Hr0.
+  - exact G1.
+  - intros g Hg. split; [apply G2; exact Hg | intros m Hm; eapply G3; eassumption].
+  - intros x. rewrite !drop_In, rm_key_In. simpl.
+    split; [intros [[H1 H2] H3]; split; [exact H1 | intros [E|E]; [apply H2; symmetry; exact E | exact (H3 E)]]
+           | intros [H1 H2]; split; [split; [exact H1 | intros E; apply H2; left; symmetry; exact E] | intros E; apply H2; right; exact E]].
+Qed.
+
+Lemma rep_copy t f P q sq t' : Rep t f P -> find q t = Some sq -> NoDup (keys_of t') ->
+  (forall x, In x (keys_of t') -> ~ In x (keys_of t) /\ fget x (flat f) = None) ->
+  (forall r, In r (rows t') -> pgs_ok r) ->
+  Rep (upd q (add_kid t') t) (save_copy q t' f) (drop (keys_of t') P).
+Proof.
+  intros R Fq Hnd Hfresh Hpg.
+  pose proof (find_tkey _ _ _ Fq) as Hk. apply find_ctx in Fq. destruct Fq as [C ->].
+  destruct sq as [q' aq lq]. simpl in Hk. subst q'.
+  rewrite upd_hole by exact (rep_nodup _ _ _ R). simpl. apply save_copy_ok; assumption.
+Qed.
+
+(* ---- what copy_sub builds from pairwise distinct drawn identifiers ---- *)
+Lemma nodupN_NoDup l : nodupN l = true -> NoDup l.
+Proof.
+  induction l as [|a l IH]; simpl; intros H; [constructor|].
+  apply andb_true_iff in H. destruct H as [H1 H2]. constructor; [|apply IH; exact H2].
+  intros Hin. apply negb_true_iff in H1.
+  assert (E : existsb (N.eqb a) l = true) by (apply existsb_exists; exists a; split; [exact Hin | apply N.eqb_refl]).
+  congruence.
+Qed.
+
+Lemma map_snd_combine {A B} (l : list A) (l' : list B) : length l = length l' -> map snd (combine l l') = l'.
+Proof.
+  revert l'. induction l as [|x r IH]; intros [|y r'] H; simpl in *; try reflexivity; try discriminate.
+  f_equal. apply IH. congruence.
+Qed.
+
+Lemma firstn_plus {A} n m (l : list A) : firstn (n + m) l = firstn n l ++ firstn m (skipn n l).
+Proof.
+  revert l. induction n as [|n IH]; intros l; simpl; [reflexivity|].
+  destruct l as [|x r]; simpl; [rewrite firstn_nil; reflexivity|]. f_equal. apply IH.
+Qed.
+
+Lemma nodup_flat_map_opt {A B} (f : A -> option B) l : NoDup l ->
+  (forall x1 x2 y, In x1 l -> In x2 l -> f x1 = Some y -> f x2 = Some y -> x1 = x2) ->
+  NoDup (flat_map (fun x => match f x with Some y => [y] | None => [] end) l).
+Proof.
+  induction l as [|x r IH]; intros Hn Hinj; simpl; [constructor|].
+  inversion Hn as [|? ? Hx Hr]; subst.
+  assert (IH' : NoDup (flat_map (fun x => match f x with Some y => [y] | None => [] end) r)).
+  { apply IH; [exact Hr|]. intros x1 x2 y H1 H2. apply Hinj; right; assumption. }
+  destruct (f x) as [y|] eqn:E; simpl; [|exact IH']. constructor; [|exact IH'].
+  intros Hin. apply in_flat_map in Hin. destruct Hin as [x2 [Hx2 Hy]].
+  destruct (f x2) as [y2|] eqn:E2; [|destruct Hy]. destruct Hy as [<-|[]].
+  assert (x = x2) by (eapply Hinj; [left; reflexivity | right; exact Hx2 | exact E | exact E2]). subst x2. exact (Hx Hx2).
+Qed.
+
+Lemma assoc_key_In x m y : assoc_key x m = Some y -> In (x, y) m.
+Proof.
+  induction m as [|[a b] r IH]; simpl; [discriminate|].
+  keq x a; [intros H; inversion H; subst; left; reflexivity | intros H; right; apply IH; exact H].
+Qed.
+
+Lemma remap_In cmap ms y : In y (remap cmap ms) -> exists x, In x ms /\ In (x, y) cmap.
+Proof.
+  unfold remap. intros H. apply in_flat_map in H. destruct H as [x [Hx Hy]].
+  destruct (assoc_key x cmap) as [y'|] eqn:E; [|destruct Hy]. destruct Hy as [<-|[]].
+  exists x. split; [exact Hx | apply assoc_key_In; exact E].
+Qed.
+
+Lemma remap_nodup cmap ms : NoDup ms -> NoDup (map snd cmap) -> NoDup (remap cmap ms).
+Proof.
+  intros H1 H2. unfold remap. apply nodup_flat_map_opt with (f := fun x => assoc_key x cmap); [exact H1|].
+  intros x1 x2 y _ _ E1 E2. apply assoc_key_In in E1. apply assoc_key_In in E2.
+  assert (E : (x1, y) = (x2, y)) by (eapply NoDup_map_inj_in; [exact H2 | exact E1 | exact E2 | reflexivity]).
+  inversion E. reflexivity.
+Qed.
+
+Definition kidk (cj : tree * N) : key := (KD, snd cj).
+Definition kid_copy (cj : tree * N) : tree := let '(c, j) := cj in Node (KD, j) (with_pgs (tattrs c) []) [].
+Definition kid_pair (cj : tree * N) : key * key := let '(c, j) := cj in (tkey c, (KD, j)).
+
+Lemma kid_copy_keys L : flat_map keys_of (map kid_copy L) = map kidk L.
+Proof. induction L as [|[c j] r IH]; simpl; [reflexivity|]. f_equal. exact IH. Qed.
+Lemma kid_copy_tkeys L : map tkey (map kid_copy L) = map kidk L.
+Proof. induction L as [|[c j] r IH]; simpl; [reflexivity|]. f_equal. exact IH. Qed.
+Lemma kid_copy_rows L r : In r (flat_map rows (map kid_copy L)) -> pgs_ok r.
+Proof.
+  induction L as [|[c j] L IH]; simpl; [intros []|]. intros [<-|H]; [apply pgs_ok_nil; reflexivity | apply IH; exact H].
+Qed.
+Lemma kid_pair_snd L : map snd (map kid_pair L) = map kidk L.
+Proof. induction L as [|[c j] r IH]; simpl; [reflexivity|]. f_equal. exact IH. Qed.
+Lemma kidk_snd L : map snd (map kidk L) = map snd L.
+Proof. rewrite map_map. reflexivity. Qed.
+Lemma kidk_kind L y : In y (map kidk L) -> fst y = KD.
+Proof. intros H. apply in_map_iff in H. destruct H as [cj [<- _]]. reflexivity. Qed.
+
+Definition copy_facts_out (ids : list N) (t' : tree) (rest : list N) : Prop :=
+  exists U, ids = U ++ rest /\ (forall x, In x (keys_of t') -> In (snd x) U) /\
+    (NoDup U -> NoDup (map snd (keys_of t')) /\ forall r', In r' (rows t') -> pgs_ok r').
+
+Lemma copy_obj_facts i a l ids1 t' rest : copy_obj i a l ids1 = Some (t', rest) ->
+  (forall g, In g (apgs a) -> NoDup (pg_members g)) ->
+  copy_facts_out (i :: ids1) t' rest.
+Proof.
+  unfold copy_obj. intros H Hga.
+  destruct (Nat.ltb (length ids1) (length l + length (apgs a))) eqn:El; [discriminate|].
+  apply Nat.ltb_ge in El. inversion H; subst t' rest. clear H.
+  set (n := length l) in *. set (m := length (apgs a)) in *.
+  set (kid_ids := firstn n ids1). set (pg_ids := firstn m (skipn n ids1)).
+  set (L := combine l kid_ids).
+  assert (Hlk : length kid_ids = n) by (unfold kid_ids; apply firstn_length_le; lia).
+  assert (Hlp : length pg_ids = m) by (unfold pg_ids; apply firstn_length_le; rewrite skipn_length; lia).
+  assert (HLs : map snd L = kid_ids) by (apply map_snd_combine; unfold n in Hlk; congruence).
+  exists (i :: kid_ids ++ pg_ids). split; [|split].
+  - simpl. f_equal. unfold kid_ids, pg_ids. rewrite <- firstn_plus. symmetry. apply firstn_skipn.
+  - change (map (fun '(c, j) => Node (KD, j) (with_pgs (tattrs c) []) []) L) with (map kid_copy L).
+    intros x Hx. rewrite keys_of_eq, kid_copy_keys in Hx. destruct Hx as [<-|Hx]; [left; reflexivity|].
+    right. apply in_or_app. left. rewrite <- HLs. apply in_map_iff in Hx. destruct Hx as [cj [<- Hcj]].
+    change (snd (kidk cj)) with (snd cj). apply (in_map snd). exact Hcj.
+  - intros HU. change (map (fun '(c, j) => Node (KD, j) (with_pgs (tattrs c) []) []) L) with (map kid_copy L).
+    change (map (fun '(c, j) => (tkey c, (KD, j))) L) with (map kid_pair L).
+    inversion HU as [|? ? Hi HU']; subst. apply nodup_app_iff in HU'. destruct HU' as [Hnk [Hnp _]].
+    assert (Hkk : NoDup (map kidk L)) by (apply (NoDup_map_inv snd); rewrite kidk_snd, HLs; exact Hnk).
+    split.
+    + rewrite keys_of_eq, kid_copy_keys. simpl. rewrite kidk_snd, HLs. constructor; [|exact Hnk].
+      intros Hin. apply Hi. apply in_or_app. left. exact Hin.
+    + intros r' Hr'. rewrite rows_eq in Hr'. destruct Hr' as [<-|Hr']; [|eapply kid_copy_rows; exact Hr'].
+      unfold pgs_ok, rattrs, rkids. simpl. rewrite kid_copy_tkeys.
+      set (PL := combine (apgs a) pg_ids).
+      assert (Hids : map pg_id (map (fun '(g, j) => (j, pg_name g, remap (map kid_pair L) (pg_members g))) PL) = pg_ids).
+      { transitivity (map snd PL); [|apply map_snd_combine; unfold m in Hlp; congruence].
+        rewrite map_map. apply map_ext. intros [g j]. reflexivity. }
+      split; [rewrite Hids; exact Hnp|]. split.
+      * intros h Hh. apply in_map_iff in Hh. destruct Hh as [[g j] [<- Hgj]]. unfold pg_members at 1. simpl.
+        apply remap_nodup; [apply Hga; eapply in_combine_l; exact Hgj | rewrite kid_pair_snd; exact Hkk].
+      * intros h y Hh Hy. apply in_map_iff in Hh. destruct Hh as [[g j] [<- Hgj]]. unfold pg_members at 1 in Hy. simpl in Hy.
+        apply remap_In in Hy. destruct Hy as [x [_ Hxy]].
+        assert (Hyk : In y (map kidk L)).
+        { rewrite <- kid_pair_snd. apply in_map_iff. exists (x, y). split; [reflexivity | exact Hxy]. }
+        split; [exact Hyk | eapply kidk_kind; exact Hyk].
+Qed.
+
+Definition copy_facts (t : tree) : Prop := forall ids t' rest,
+  copy_sub t ids = Some (t', rest) -> (forall r, In r (rows t) -> pgs_ok r) -> copy_facts_out ids t' rest.
+
+Lemma copy_list_facts l : Forall copy_facts l -> forall ids l' rest,
+  copy_list l ids = Some (l', rest) -> (forall r, In r (flat_map rows l) -> pgs_ok r) ->
+  exists U, ids = U ++ rest /\ (forall x, In x (flat_map keys_of l') -> In (snd x) U) /\
+    (NoDup U -> NoDup (map snd (flat_map keys_of l')) /\ forall r', In r' (flat_map rows l') -> pgs_ok r').
+Proof.
+  intros H. induction H as [|c r Hc Hr IH]; intros ids l' rest E Hpg; simpl in E.
+  - inversion E; subst. exists []. split; [reflexivity|]. split; [intros x []|]. intros _. split; [constructor | intros r' []].
+  - destruct (copy_sub c ids) as [[c' ids']|] eqn:E1; [|discriminate].
+    destruct (copy_list r ids') as [[r' ids'']|] eqn:E2; [|discriminate]. inversion E; subst l' rest. clear E.
+    destruct (Hc _ _ _ E1) as [U1 [A1 [B1 C1]]]. { intros r0 Hr0. apply Hpg. simpl. apply in_or_app. left. exact Hr0. }
+    destruct (IH _ _ _ E2) as [U2 [A2 [B2 C2]]]. { intros r0 Hr0. apply Hpg. simpl. apply in_or_app. right. exact Hr0. }
+    exists (U1 ++ U2). split; [rewrite A1, A2, app_assoc; reflexivity|]. split.
+    + intros x Hx. simpl in Hx. apply in_app_or in Hx. apply in_or_app.
+      destruct Hx as [Hx|Hx]; [left; apply B1; exact Hx | right; apply B2; exact Hx].
+    + intros HU. apply nodup_app_iff in HU. destruct HU as [N1 [N2 N3]].
+      destruct (C1 N1) as [D1 F1]. destruct (C2 N2) as [D2 F2]. split.
+      * simpl. rewrite map_app. apply nodup_app_iff. split; [exact D1|]. split; [exact D2|].
+        intros y Hy1 Hy2. apply in_map_iff in Hy1. destruct Hy1 as [x1 [<- Hx1]].
+        apply in_map_iff in Hy2. destruct Hy2 as [x2 [Ex Hx2]].
+        apply (N3 (snd x1)); [apply B1; exact Hx1 | rewrite <- Ex; apply B2; exact Hx2].
+      * intros r0 Hr0. simpl in Hr0. apply in_app_or in Hr0. destruct Hr0 as [Hr0|Hr0]; [apply F1 | apply F2]; exact Hr0.
+Qed.
+
+Lemma copy_sub_facts t : copy_facts t.
+Proof.
+  induction t as [k a l IH] using tree_ind'. intros ids t' rest E Hpg. rewrite copy_sub_eq in E.
+  destruct ids as [|i ids1]; [discriminate|]. destruct (fst k).
+  - destruct (copy_list l ids1) as [[l' ids2]|] eqn:E1; [|discriminate]. inversion E; subst t' rest. clear E.
+    destruct (copy_list_facts l IH _ _ _ E1) as [U [A [B Cc]]].
+    { intros r0 Hr0. apply Hpg. rewrite rows_eq. right. exact Hr0. }
+    exists (i :: U). split; [rewrite A; reflexivity|]. split.
+    + intros x Hx. rewrite keys_of_eq in Hx. destruct Hx as [<-|Hx]; [left; reflexivity | right; apply B; exact Hx].
+    + intros HU. inversion HU as [|? ? Hi HU']; subst. destruct (Cc HU') as [D F]. split.
+      * rewrite keys_of_eq. simpl. constructor; [|exact D]. intros Hin. apply Hi.
+        apply in_map_iff in Hin. destruct Hin as [x [<- Hx]]. apply B. exact Hx.
+      * intros r0 Hr0. rewrite rows_eq in Hr0. destruct Hr0 as [<-|Hr0]; [apply pgs_ok_nil; reflexivity | apply F; exact Hr0].
+  - apply copy_obj_facts in E; [exact E|].
+    intros g Hg. destruct (Hpg (k, a, map tkey l)) as [_ [G2 _]]; [rewrite rows_eq; left; reflexivity|]. apply G2. exact Hg.
+  - inversion E; subst t' rest. clear E. exists [i]. split; [reflexivity|]. split.
+    + intros x [<-|[]]. left. reflexivity.
+    + intros _. split; [simpl; constructor; [intros [] | constructor]|].
+      intros r0 [<-|[]]. apply pgs_ok_nil. reflexivity.
+Qed.
+
+Lemma copy_sub_nodup t ids t' : copy_sub t ids = Some (t', []) -> NoDup ids -> (forall r, In r (rows t) -> pgs_ok r) ->
+  NoDup (keys_of t') /\ forall r', In r' (rows t') -> pgs_ok r'.
+Proof.
+  intros E Hn Hpg. destruct (copy_sub_facts t _ _ _ E Hpg) as [U [A [_ Cc]]]. rewrite app_nil_r in A. subst U.
+  destruct (Cc Hn) as [D F]. split; [eapply NoDup_map_inv; exact D | exact F].
+Qed.
+
+(* ======================================================================================================== *)
+(* The loader rebuilds the tree                                                                              *)
+(* ======================================================================================================== *)
+Definition load_step (fuel' : nat) (m : flatmap) (acc : list tree * list key) (l : key * N) : list tree * list key :=
+  let '(ks, sn) := acc in
+  if mem_key (fst l) sn then (ks, sn)
+  else match load fuel' m sn (fst l) with Some (t, sn') => (ks ++ [t], sn') | None => (ks, sn) end.
+
+Lemma load_eq fuel' m seen x :
+  load (S fuel') m seen x =
+  match fget x m with
+  | None => None
+  | Some n =>
+      let '(kids, seen') := fold_left (load_step fuel' m) (sort_links (flinks n)) ([], x :: seen) in
+      Some (Node x (with_pgs (fattrs n) (sort_pgs (apgs (fattrs n)))) kids, seen')
+  end.
+Proof. reflexivity. Qed.
+
+Lemma ins_link_perm x l : Permutation (ins_link x l) (x :: l).
+Proof.
+  induction l as [|y r IH]; simpl; [apply Permutation_refl|].
+  destruct (key_leb (fst x) (fst y)); [apply Permutation_refl|].
+  eapply Permutation_trans; [apply perm_skip; exact IH | apply perm_swap].
+Qed.
+
+Lemma sort_links_perm l : Permutation (sort_links l) l.
+Proof.
+  induction l as [|x r IH]; simpl; [constructor|].
+  eapply Permutation_trans; [apply ins_link_perm | apply perm_skip; exact IH].
+Qed.
+
+Lemma ins_pg_perm g l : Permutation (ins_pg g l) (g :: l).
+Proof.
+  induction l as [|h r IH]; simpl; [apply Permutation_refl|].
+  destruct (N.leb (pg_id g) (pg_id h)); [apply Permutation_refl|].
+  eapply Permutation_trans; [apply perm_skip; exact IH | apply perm_swap].
+Qed.
+
+Lemma sort_pgs_perm l : Permutation (sort_pgs l) l.
+Proof.
+  induction l as [|x r IH]; simpl; [constructor|].
+  eapply Permutation_trans; [apply ins_pg_perm | apply perm_skip; exact IH].
+Qed.
+
+Lemma sorted_attrs_equiv b : attrs_equiv (with_pgs b (sort_pgs (apgs b))) b.
+Proof.
+  pose proof (sort_pgs_perm (apgs b)) as Hp.
+  split; [reflexivity|]. split; [reflexivity|]. split; [reflexivity|]. simpl. split.
+  - intros g. split; apply Permutation_in; [exact Hp | apply Permutation_sym; exact Hp].
+  - apply Permutation_length. exact Hp.
+Qed.
+
+Lemma perm_flat_map {A B} (f : A -> list B) l l' : Permutation l l' -> Permutation (flat_map f l) (flat_map f l').
+Proof.
+  induction 1 as [| x l l' HP IH | x y l | l l' l'' HP1 IH1 HP2 IH2]; simpl.
+  - constructor.
+  - apply Permutation_app_head. exact IH.
+  - rewrite !app_assoc. apply Permutation_app_tail. apply Permutation_app_comm.
+  - eapply Permutation_trans; eassumption.
+Qed.
+
+Lemma forall2_in_l {A B} (R : A -> B -> Prop) l1 l2 : Forall2 R l1 l2 -> forall x, In x l1 -> exists y, In y l2 /\ R x y.
+Proof.
+  induction 1 as [|a b l1 l2 Hab HF IH]; intros x Hx; [destruct Hx|].
+  destruct Hx as [<-|Hx]; [exists b; split; [left; reflexivity | exact Hab]|].
+  destruct (IH x Hx) as [y [Hy Hr]]. exists y. split; [right; exact Hy | exact Hr].
+Qed.
+
+Lemma forall2_in_r {A B} (R : A -> B -> Prop) l1 l2 : Forall2 R l1 l2 -> forall y, In y l2 -> exists x, In x l1 /\ R x y.
+Proof.
+  induction 1 as [|a b l1 l2 Hab HF IH]; intros y Hy; [destruct Hy|].
+  destruct Hy as [<-|Hy]; [exists a; split; [left; reflexivity | exact Hab]|].
+  destruct (IH y Hy) as [x [Hx Hr]]. exists x. split; [right; exact Hx | exact Hr].
+Qed.
+
+Lemma forall2_length {A B} (R : A -> B -> Prop) l1 l2 : Forall2 R l1 l2 -> length l1 = length l2.
+Proof. induction 1; simpl; [reflexivity | f_equal; assumption]. Qed.
+
+Lemma nodup_kid l c : NoDup (flat_map keys_of l) -> In c l -> NoDup (keys_of c).
+Proof.
+  intros H Hc. apply in_split in Hc. destruct Hc as [l1 [l2 ->]]. rewrite flat_map_app in H. simpl in H.
+  apply nodup_app_iff in H. destruct H as [_ [H _]]. apply nodup_app_iff in H. apply H.
+Qed.
+
+Definition load_rel (t' c : tree) : Prop := tree_equiv t' c /\ Permutation (keys_of t') (keys_of c).
+
+Lemma forall2_flat_perm new lk : Forall2 load_rel new lk -> Permutation (flat_map keys_of new) (flat_map keys_of lk).
+Proof.
+  induction 1 as [|a b l1 l2 Hab HF IH]; simpl; [constructor|]. apply Permutation_app; [apply Hab | exact IH].
+Qed.
+
+Definition load_kid_ok (fuel' : nat) (m : flatmap) (c : tree) : Prop :=
+  forall seen, (forall y, In y (keys_of c) -> ~ In y seen) ->
+  exists s' seen', load fuel' m seen (tkey c) = Some (s', seen') /\ load_rel s' c /\
+     (forall y, In y seen' <-> In y seen \/ In y (keys_of c)).
+
+Lemma load_fold_ok fuel' m : forall lk L ks sn,
+  map fst L = map tkey lk -> Forall (load_kid_ok fuel' m) lk -> NoDup (flat_map keys_of lk) ->
+  (forall y, In y (flat_map keys_of lk) -> ~ In y sn) ->
+  exists new sn', fold_left (load_step fuel' m) L (ks, sn) = (ks ++ new, sn') /\ Forall2 load_rel new lk /\
+     (forall y, In y sn' <-> In y sn \/ In y (flat_map keys_of lk)).
+Proof.
+  induction lk as [|c lk IH]; intros L ks sn HL HF Hnd Hdis.
+  - destruct L; [|discriminate]. exists [], sn. simpl. rewrite app_nil_r.
+    split; [reflexivity|]. split; [constructor|]. intros y; tauto.
+  - destruct L as [|[c0 ad] L]; [discriminate|]. simpl in HL. inversion HL as [[Hc0 HL']].
+    inversion HF as [|? ? Hc HF']; subst.
+    simpl in Hnd. apply nodup_app_iff in Hnd. destruct Hnd as [N1 [N2 N3]].
+    assert (Hm : mem_key (tkey c) sn = false).
+    { apply mem_key_false. apply Hdis. simpl. apply in_or_app. left. apply tkey_in_keys. }
+    destruct (Hc sn) as [s' [sn1 [E1 [Rl Hs1]]]].
+    { intros y Hy. apply Hdis. simpl. apply in_or_app. left. exact Hy. }
+    destruct (IH L (ks ++ [s']) sn1 HL' HF' N2) as [new [sn' [E2 [F2 Hs2]]]].
+    { intros y Hy Hin. apply Hs1 in Hin. destruct Hin as [Hin|Hin].
+      - apply (Hdis y); [simpl; apply in_or_app; right; exact Hy | exact Hin].
+      - exact (N3 y Hin Hy). }
+    exists (s' :: new), sn'. split; [|split].
+    + change (fold_left (load_step fuel' m) ((tkey c, ad) :: L) (ks, sn))
+        with (fold_left (load_step fuel' m) L (load_step fuel' m (ks, sn) (tkey c, ad))).
+      assert (E : load_step fuel' m (ks, sn) (tkey c, ad) = (ks ++ [s'], sn1)).
+      { unfold load_step. simpl. rewrite Hm, E1. reflexivity. }
+      rewrite E, E2, <- app_assoc. reflexivity.
+    + constructor; assumption.
+    + intros y. rewrite Hs2, Hs1. simpl. rewrite in_app_iff. tauto.
+Qed.
+
+Definition load_ok (m : flatmap) (s : tree) : Prop := forall fuel seen,
+  height s <= fuel -> (forall r, In r (rows s) -> node_matches m r) -> NoDup (keys_of s) ->
+  (forall y, In y (keys_of s) -> ~ In y seen) ->
+  exists s' seen', load fuel m seen (tkey s) = Some (s', seen') /\ load_rel s' s /\
+     (forall y, In y seen' <-> In y seen \/ In y (keys_of s)).
+
+Lemma load_sub m s : load_ok m s.
+Proof.
+  induction s as [k a l IH] using tree_ind'. intros fuel seen Hh Hrows Hnd Hdis.
+  destruct fuel as [|fuel']; [simpl in Hh; lia|].
+  destruct (Hrows (k, a, map tkey l)) as [n [Hg [Ha [Hlnd [Hk Hl]]]]]; [rewrite rows_eq; left; reflexivity|].
+  unfold rkey, rattrs, rkids in Hg, Ha, Hlnd, Hk, Hl; simpl in Hg, Ha, Hlnd, Hk, Hl.
+  simpl tkey. rewrite load_eq, Hg.
+  pose proof (sort_links_perm (flinks n)) as Hsp.
+  assert (Hkl : ~ In k (flat_map keys_of l) /\ NoDup (flat_map keys_of l))
+    by (rewrite keys_of_eq in Hnd; inversion Hnd; split; assumption).
+  destruct Hkl as [Hkl Hndl].
+  assert (Hperm : Permutation (map fst (sort_links (flinks n))) (map tkey l)).
+  { apply NoDup_Permutation.
+    - eapply Permutation_NoDup; [apply Permutation_sym; apply Permutation_map; exact Hsp | exact Hlnd].
+    - apply nodup_tkeys. exact Hndl.
+    - intros c. rewrite <- Hk. split; apply Permutation_in; [|apply Permutation_sym]; apply Permutation_map; exact Hsp. }
+  apply Permutation_map_inv in Hperm. destruct Hperm as [lk [HL Hlk]].
+  pose proof (perm_flat_map keys_of _ _ Hlk) as Hfk.
+  destruct (load_fold_ok fuel' m lk (sort_links (flinks n)) [] (k :: seen) HL) as [new [sn' [E [F Hs]]]].
+  - apply Forall_forall. intros c Hc.
+    assert (Hcl : In c l) by (eapply Permutation_in; [apply Permutation_sym; exact Hlk | exact Hc]).
+    rewrite Forall_forall in IH. intros seen0 Hd0. apply (IH c Hcl fuel' seen0).
+    + pose proof (height_kid k a l c Hcl). lia.
+    + intros r Hr. apply Hrows. rewrite rows_eq. right. apply in_flat_map. exists c. split; assumption.
+    + eapply nodup_kid; eassumption.
+    + exact Hd0.
+  - eapply Permutation_NoDup; [exact Hfk | exact Hndl].
+  - intros y Hy [<-|Hin].
+    + apply Hkl. eapply Permutation_in; [apply Permutation_sym; exact Hfk | exact Hy].
+    + apply (Hdis y); [right; eapply Permutation_in; [apply Permutation_sym; exact Hfk | exact Hy] | exact Hin].
+  - rewrite E. simpl. exists (Node k (with_pgs (fattrs n) (sort_pgs (apgs (fattrs n)))) new), sn'. split; [reflexivity|]. split; [split|].
+    + constructor; [eapply attrs_equiv_trans; [apply sorted_attrs_equiv | exact Ha]|]. constructor.
+      * rewrite (forall2_length _ _ _ F). symmetry. apply Permutation_length. exact Hlk.
+      * intros c1 H1. destruct (forall2_in_l _ _ _ F c1 H1) as [c2 [H2 [He _]]]. exists c2.
+        split; [eapply Permutation_in; [apply Permutation_sym; exact Hlk | exact H2] | exact He].
+      * intros c2 H2. assert (H2' : In c2 lk) by (eapply Permutation_in; eassumption).
+        destruct (forall2_in_r _ _ _ F c2 H2') as [c1 [H1 [He _]]]. exists c1. split; assumption.
+    + rewrite !keys_of_eq. apply perm_skip.
+      eapply Permutation_trans; [apply forall2_flat_perm; exact F | apply Permutation_sym; exact Hfk].
+    + intros y. rewrite Hs. simpl.
+      assert (Hyy : In y (flat_map keys_of lk) <-> In y (flat_map keys_of l)).
+      { split; apply Permutation_in; [apply Permutation_sym|]; exact Hfk. }
+      rewrite Hyy. tauto.
+Qed.
+
+Lemma rep_keys_in_flat t f P : Rep t f P -> incl (keys_of t) (map fst (flat f)).
+Proof.
+  intros R x Hx. rewrite keys_of_rows in Hx. apply in_map_iff in Hx. destruct Hx as [r [<- Hr]].
+  destruct (rep_rows _ _ _ R r Hr) as [n [Hg _]]. eapply fget_Some_In. exact Hg.
+Qed.
+
+Theorem load_rep_perm : forall t f pend, Rep t f pend ->
+  exists t' sn, load (S (length (flat f))) (flat f) [] rootkey = Some (t', sn)
+     /\ tree_equiv t' t /\ Permutation (keys_of t') (keys_of t).
+Proof.
+  intros t f P R. rewrite <- (rep_root _ _ _ R).
+  destruct (load_sub (flat f) t (S (length (flat f))) []) as [t' [sn [E [[He Hp] _]]]].
+  - pose proof (height_le_keys t). pose proof (NoDup_incl_length (rep_nodup _ _ _ R) (rep_keys_in_flat _ _ _ R)) as Hl.
+    rewrite map_length in Hl. lia.
+  - exact (rep_rows _ _ _ R).
+  - exact (rep_nodup _ _ _ R).
+  - intros y _ [].
+  - exists t', sn. split; [exact E|]. split; assumption.
+Qed.
+
+Theorem load_rep : forall t f pend, Rep t f pend ->
+  exists t' sn, load (S (length (flat f))) (flat f) [] rootkey = Some (t', sn)
+     /\ tree_equiv t' t /\ NoDup (keys_of t').
+Proof.
+  intros t f P R. destruct (load_rep_perm t f P R) as [t' [sn [E [He Hp]]]].
+  exists t', sn. split; [exact E|]. split; [exact He|].
+  eapply Permutation_NoDup; [apply Permutation_sym; exact Hp | exact (rep_nodup _ _ _ R)].
+Qed.
+
+(* ---- a tree equal up to the order of children / group blocks is represented by the same file ---- *)
+Lemma tree_equiv_inv t' t : tree_equiv t' t ->
+  tkey t' = tkey t /\ attrs_equiv (tattrs t') (tattrs t) /\ length (tkids t') = length (tkids t) /\
+  (forall c1, In c1 (tkids t') -> exists c2, In c2 (tkids t) /\ tree_equiv c1 c2) /\
+  (forall c2, In c2 (tkids t) -> exists c1, In c1 (tkids t') /\ tree_equiv c1 c2).
+Proof.
+  intros H. destruct H as [k a1 a2 l1 l2 Ha Hk]. destruct Hk as [l1 l2 Hlen H12 H21]. simpl.
+  split; [reflexivity|]. split; [exact Ha|]. split; [exact Hlen|]. split; assumption.
+Qed.
+
+Lemma rows_equiv t' : forall t, tree_equiv t' t -> forall r', In r' (rows t') ->
+  exists r, In r (rows t) /\ rkey r = rkey r' /\ attrs_equiv (rattrs r') (rattrs r) /\ (forall c, In c (rkids r') <-> In c (rkids r)).
+Proof.
+  induction t' as [k a l1 IH] using tree_ind'. intros t He r' Hr'.
+  destruct (tree_equiv_inv _ _ He) as [Ek [Ea [_ [H12 H21]]]]. destruct t as [k2 a2 l2]. simpl in *. subst k2.
+  destruct Hr' as [<-|Hr'].
+  - exists (k, a2, map tkey l2). split; [left; reflexivity|]. split; [reflexivity|]. split; [exact Ea|].
+    unfold rkids. simpl. intros c. split; intros Hc; apply in_map_iff in Hc; destruct Hc as [c1 [<- Hc1]].
+    + destruct (H12 c1 Hc1) as [c2 [Hc2 He2]]. rewrite (proj1 (tree_equiv_inv _ _ He2)). apply in_map. exact Hc2.
+    + destruct (H21 c1 Hc1) as [c0 [Hc0 He0]]. rewrite <- (proj1 (tree_equiv_inv _ _ He0)). apply in_map. exact Hc0.
+  - apply in_flat_map in Hr'. destruct Hr' as [c1 [Hc1 Hr1]]. destruct (H12 c1 Hc1) as [c2 [Hc2 He2]].
+    rewrite Forall_forall in IH. destruct (IH c1 Hc1 c2 He2 r' Hr1) as [r [Hr Hrest]]. exists r. split; [|exact Hrest].
+    right. apply in_flat_map. exists c2. split; assumption.
+Qed.
+
+Lemma node_matches_ext m r r' : node_matches m r -> rkey r = rkey r' -> attrs_equiv (rattrs r') (rattrs r) ->
+  (forall c, In c (rkids r') <-> In c (rkids r)) -> node_matches m r'.
+Proof.
+  intros [n [Hg [Ha [Hnd [Hk Hl]]]]] E1 E2 E3. exists n. rewrite <- E1.
+  split; [exact Hg|]. split; [eapply attrs_equiv_trans; [exact Ha | apply attrs_equiv_sym; exact E2]|].
+  split; [exact Hnd|]. split; [|exact Hl].
+  intros c. rewrite Hk. symmetry. apply E3.
+Qed.
+
+Lemma pgs_ok_ext r r' : pgs_ok r -> attrs_equiv (rattrs r') (rattrs r) -> (forall c, In c (rkids r') <-> In c (rkids r)) -> pgs_ok r'.
+Proof.
+  intros [G1 [G2 G3]] Ea Ek. pose proof (attrs_equiv_pgs _ _ Ea) as Hp. split; [|split].
+  - eapply pgs_equiv_ids; [exact G1 | apply pgs_equiv_sym; exact Hp].
+  - intros g Hg. apply G2. apply Hp. exact Hg.
+  - intros g m Hg Hm. destruct (G3 g m (proj1 (proj1 Hp g) Hg) Hm) as [H1 H2]. split; [apply Ek; exact H1 | exact H2].
+Qed.
+
+Lemma rep_equiv t t' f P : Rep t f P -> tree_equiv t' t -> Permutation (keys_of t') (keys_of t) -> Rep t' f P.
+Proof.
+  intros [Rroot Rnd Rfnd Rrows Ronly Rpend Rrl Rpgs] He Hp. constructor.
+  - rewrite (proj1 (tree_equiv_inv _ _ He)). exact Rroot.
+  - eapply Permutation_NoDup; [apply Permutation_sym; exact Hp | exact Rnd].
+  - exact Rfnd.
+  - intros r' Hr'. destruct (rows_equiv _ _ He r' Hr') as [r [Hr [E1 [E2 E3]]]].
+    eapply node_matches_ext; [apply Rrows; exact Hr | | |]; assumption.
+  - intros k n Hg. destruct (Ronly k n Hg) as [H|H]; [|right; exact H].
+    left. eapply Permutation_in; [apply Permutation_sym; exact Hp | exact H].
+  - intros k Hk Hin. apply (Rpend k Hk). eapply Permutation_in; eassumption.
+  - exact Rrl.
+  - intros r' Hr'. destruct (rows_equiv _ _ He r' Hr') as [r [Hr [E1 [E2 E3]]]].
+    eapply pgs_ok_ext; [apply Rpgs; exact Hr | |]; assumption.
+Qed.
+
+Definition nonKG (x : key) : bool := negb (kind_eqb (fst x) KG).
+
+Lemma rep_reopen w orph : Rep (wmem w) (wfile w) (wpend w ++ orph) ->
+  snd (do_reopen w) = Done /\ tree_equiv (wmem (fst (do_reopen w))) (wmem w) /\
+  Rep (wmem (fst (do_reopen w))) (wfile (fst (do_reopen w)))
+      (wpend (fst (do_reopen w)) ++ (filter nonKG (wpend w) ++ orph)).
+Proof.
+  intros R.
+  destruct (close_file_rep_file w _ R) as [Hf _]. { intros k Hk; apply in_or_app; left; exact Hk. }
+  pose proof (rep_sweep w KG orph R) as R1.
+  destruct (load_rep_perm _ _ _ R1) as [t' [sn [E [He Hp]]]].
+  destruct (rep_rootln _ _ _ R1) as [n [Hg Hl]].
+  unfold do_reopen. cbv zeta. rewrite Hf, Hl, E. simpl.
+  split; [reflexivity|]. split; [exact He|]. eapply rep_equiv; eassumption.
+Qed.
+
+(* ---- one step ---- *)
+Definition copy_keys (w : ws) (e : key) (ids : list N) : list key :=
+  match find e (wmem w) with
+  | Some te => match copy_sub te ids with Some (t', _) => keys_of t' | None => [] end
+  | None => []
+  end.
+
+Definition next_orph (w : ws) (o : op) (orph : list key) : list key :=
+  match o with
+  | Create k u _ _ _ => rm_key (k, u) orph
+  | Reopen => filter nonKG (wpend w) ++ orph
+  | Copy e q ids => drop (copy_keys w e ids) orph
+  | _ => orph
+  end.
+
+Lemma w_scalars_set g : (forall a, aarr (g a) = aarr a) -> (forall a, apgs (g a) = apgs a) ->
+  forall x a f n, fget x (flat f) = Some n -> attrs_equiv (fattrs n) a ->
+  exists n', fget x (flat (w_scalars x (g a) f)) = Some n' /\ attrs_equiv (fattrs n') (g a) /\ faddr n' = faddr n /\ flinks n' = flinks n.
+Proof.
+  intros Hg Hp x a f n Hn [A1 [A2 [A3 [A4 A5]]]]. unfold w_scalars. rewrite Hn. simpl. eexists. split; [apply fget_fset_same|]. simpl.
+  split; [|split; reflexivity]. split; [reflexivity|]. split; [reflexivity|]. simpl. rewrite Hg, Hp. split; [exact A3|]. split; assumption.
+Qed.
+
+Lemma w_array_set g : (forall a, aname (g a) = aname a /\ adel (g a) = adel a) -> (forall a, apgs (g a) = apgs a) ->
+  forall x a f n, fget x (flat f) = Some n -> attrs_equiv (fattrs n) a ->
+  exists n', fget x (flat (w_array x (g a) f)) = Some n' /\ attrs_equiv (fattrs n') (g a) /\ faddr n' = faddr n /\ flinks n' = flinks n.
+Proof.
+  intros Hg Hp x a f n Hn [A1 [A2 [A3 [A4 A5]]]]. unfold w_array. rewrite Hn. simpl. eexists. split; [apply fget_fset_same|]. simpl.
+  split; [|split; reflexivity]. destruct (Hg a) as [E1 E2]. split; [simpl; congruence|]. split; [simpl; congruence|].
+  simpl. rewrite Hp. split; [reflexivity|]. split; assumption.
+Qed.
+
+Lemma rep_find_rows t f P e te : Rep t f P -> find e t = Some te -> forall r, In r (rows te) -> pgs_ok r.
+Proof.
+  intros R F r Hr. apply find_ctx in F. destruct F as [C ->]. apply (rep_pgs _ _ _ R). apply rows_plug_in. left. exact Hr.
+Qed.
+
+Theorem rep_step_gen : forall w o orph, Rep (wmem w) (wfile w) (wpend w ++ orph) -> fresh_op w o = true ->
+  Rep (wmem (fst (step w o))) (wfile (fst (step w o))) (wpend (fst (step w o)) ++ next_orph w o orph).
+Proof.
+  intros w o orph R Hf.
+  destruct o as [k u p nm ar | e n | e b | e v | e q | e | e | k | | o g nm ms | o g | e q ids]; unfold step, next_orph.
+  - (* Create *) simpl in Hf. destruct (fget (k, u) (flat (wfile w))) eqn:Hx; [discriminate|].
+    assert (Rref : Rep (wmem w) (wfile w) (wpend w ++ rm_key (k, u) orph)).
+    { eapply rep_pend_change; [exact R | |].
+      - intros x Hx'. apply in_app_or in Hx'. apply in_or_app.
+        destruct Hx' as [H|H]; [left; exact H | right; apply rm_key_In in H; apply H].
+      - intros x n Hg Hin. apply in_app_or in Hin. apply in_or_app.
+        destruct Hin as [H|H]; [left; exact H | right; apply rm_key_In; split; [exact H | intros ->; congruence]]. }
+    unfold do_create. destruct (find p (wmem w)) as [sp|] eqn:Fp; [|exact Rref].
+    destruct (negb (can_hold (fst p) k) || mem_key (k, u) (keys_of (wmem w))) eqn:Ec; [exact Rref|].
+    simpl. apply orb_false_iff in Ec. destruct Ec as [_ Ec]. apply mem_key_false in Ec.
+    rewrite <- rm_key_app. eapply rep_create; try eassumption. reflexivity.
+  - (* SetName *)
+    set (g := fun a => {| aname := n; adel := adel a; aarr := aarr a; apgs := apgs a |}).
+    destruct (rep_do_set w e g w_scalars _ (fun a => eq_refl)
+                (w_scalars_set g (fun a => eq_refl) (fun a => eq_refl)) w_scalars_frame w_scalars_nodup w_scalars_rootlink R) as [R' Hp].
+    rewrite Hp. exact R'.
+  - (* SetDel *)
+    set (g := fun a => {| aname := aname a; adel := b; aarr := aarr a; apgs := apgs a |}).
+    destruct (rep_do_set w e g w_scalars _ (fun a => eq_refl)
+                (w_scalars_set g (fun a => eq_refl) (fun a => eq_refl)) w_scalars_frame w_scalars_nodup w_scalars_rootlink R) as [R' Hp].
+    rewrite Hp. exact R'.
+  - (* SetArr *)
+    set (g := fun a => {| aname := aname a; adel := adel a; aarr := v; apgs := apgs a |}).
+    destruct (rep_do_set w e g w_array _ (fun a => eq_refl)
+                (w_array_set g (fun a => conj eq_refl eq_refl) (fun a => eq_refl)) w_array_frame w_array_nodup w_array_rootlink R) as [R' Hp].
+    rewrite Hp. exact R'.
+  - (* Move *) unfold do_move.
+    destruct (find e (wmem w)) as [te|] eqn:Fe; [|exact R].
+    destruct (find q (wmem w)) as [sq|] eqn:Fq; [|exact R].
+    destruct (parent_of e (wmem w)) as [p|] eqn:Pe; [|exact R].
+    destruct (negb (can_hold (fst q) (fst e)) || mem_key q (keys_of te)) eqn:Ec; [exact R|].
+    destruct (key_eqb p q); [exact R|]. simpl.
+    apply orb_false_iff in Ec. destruct Ec as [_ Ec]. apply mem_key_false in Ec.
+    pose proof (rep_move _ _ _ _ _ _ _ _ R Fe Fq Pe Ec) as R'. unfold kd_wscrub in R'. exact R'.
+  - (* RemoveWs *) destruct (key_eqb e rootkey); [exact R|]. unfold do_remove_ws.
+    destruct (find e (wmem w)) as [te|] eqn:Fe; [|exact R].
+    destruct (parent_of e (wmem w)) as [p|] eqn:Pe; [|exact R].
+    destruct (rep_remove_ws _ _ _ _ _ _ R Fe Pe) as [R' _]. cbv zeta.
+    destruct (rm_ws p _ te (wfile w)) as [f' ok]. destruct (rm_ws_done te) as [gone b]. simpl in *. exact R'.
+  - (* RemoveParent *) destruct (key_eqb e rootkey); [exact R|]. unfold do_remove_parent.
+    destruct (find e (wmem w)) as [te|] eqn:Fe; [|exact R].
+    destruct (parent_of e (wmem w)) as [p|] eqn:Pe; [|exact R]. simpl.
+    pose proof (rep_remove_parent _ _ _ _ _ _ R Fe Pe) as R'. unfold kd_wscrub in R'.
+    eapply rep_pend_equiv; [exact R'|].
+    intros x. rewrite !in_app_iff. tauto.
+  - (* Sweep *) simpl. exact (rep_sweep w k orph R).
+  - (* Reopen *) apply rep_reopen. exact R.
+  - (* PgAdd *) destruct (rep_pg_add w o g nm ms _ R) as [R' Hp]. rewrite Hp. exact R'.
+  - (* PgRemove *) destruct (rep_pg_remove w o g _ R) as [R' Hp]. rewrite Hp. exact R'.
+  - (* Copy *) simpl in Hf. apply andb_true_iff in Hf. destruct Hf as [Hn Hf]. apply nodupN_NoDup in Hn.
+    assert (Hfr : forall x, In x (copy_keys w e ids) -> fget x (flat (wfile w)) = None).
+    { unfold copy_keys. destruct (find e (wmem w)) as [te|]; [|intros x []].
+      destruct (copy_sub te ids) as [[t' rest]|]; [|intros x []].
+      intros x Hx. rewrite forallb_forall in Hf. specialize (Hf x Hx).
+      destruct (fget x (flat (wfile w))); [discriminate | reflexivity]. }
+    assert (Rref : Rep (wmem w) (wfile w) (wpend w ++ drop (copy_keys w e ids) orph)).
+    { eapply rep_pend_change; [exact R | |].
+      - intros x Hx'. apply in_app_or in Hx'. apply in_or_app.
+        destruct Hx' as [H|H]; [left; exact H | right; apply drop_In in H; apply H].
+      - intros x n Hg Hin. apply in_app_or in Hin. apply in_or_app.
+        destruct Hin as [H|H]; [left; exact H | right; apply drop_In; split; [exact H|]].
+        intros Hk. rewrite (Hfr x Hk) in Hg. discriminate. }
+    unfold do_copy. unfold copy_keys in *.
+    destruct (find e (wmem w)) as [te|] eqn:Fe; [|exact Rref].
+    destruct (find q (wmem w)) as [sq|] eqn:Fq; [|exact Rref].
+    destruct (negb (can_hold (fst q) (fst e)) || mem_key q (keys_of te) || key_eqb e rootkey); [exact Rref|].
+    destruct (copy_sub te ids) as [[t' [|i r]]|] eqn:Ec; try exact Rref.
+    destruct (existsb (fun k => mem_key k (keys_of (wmem w))) (keys_of t')) eqn:Ex; [exact Rref|]. simpl.
+    destruct (copy_sub_nodup _ _ _ Ec Hn (rep_find_rows _ _ _ _ _ R Fe)) as [Hnd Hpg].
+    change (filter (fun k => negb (mem_key k (keys_of t'))) (wpend w)) with (drop (keys_of t') (wpend w)).
+    rewrite <- drop_app. eapply rep_copy; try eassumption.
+    intros x Hx. split; [|apply Hfr; exact Hx].
+    intros Hin. assert (E : existsb (fun k => mem_key k (keys_of (wmem w))) (keys_of t') = true).
+    { apply existsb_exists. exists x. split; [exact Hx | apply mem_key_In; exact Hin]. }
+    congruence.
+Qed.
